@@ -20,6 +20,7 @@ PROP = Property(
     ['IEEE-754 double arithmetic of float(value) * denominator / network.denominator is within 0.5 unit for amounts up to the total supply (not checked)'])
 
 SELF = ('var', 'self')
+A = lambda b, n: ('attr', b, n)
 
 
 def _table(ctx):
@@ -616,3 +617,79 @@ def parameters_read(ctx):
     that accepts it: the textual / hexadecimal form of an amount follows the options the caller states."""
     from .common_params import parameters_read as run
     run(ctx, ['values'], 'the form of the amount the caller asked for (byte order, length, unit) is silently replaced by the default: to_hex(byteorder="big") of 1 sat reads back as 72057594037927936', 30)
+
+
+# smallest unit of the supported chains (chain parameters: COIN = 100000000 in Bitcoin, Litecoin and Dogecoin alike)
+PUBLISHED_UNITS = {'bitcoin': 8, 'testnet': 8, 'testnet4': 8, 'signet': 8, 'regtest': 8, 'litecoin': 8, 'litecoin_legacy': 8, 'litecoin_testnet': 8,
+                   'dogecoin': 8, 'dogecoin_testnet': 8, 'bitcoinlib_test': 8}
+
+
+@PROP.obligation('C17.network-unit')
+def network_unit(ctx):
+    """data/networks.json is where every conversion takes the size of the smallest unit from (Network.denominator): for each network the
+    value is exactly 10^-8 - the published COIN of the chain - and dust / fee limits are whole numbers of that unit. A dropped zero in one
+    entry makes every text <-> integer conversion on that network wrong by a factor of ten while no code changed."""
+    import json
+    import os
+    path = os.path.join(ctx.repo.root, 'bitcoinlib', 'data', 'networks.json')
+    try:
+        data = json.load(open(path))
+    except Exception as e:
+        ctx.undecided('networks.json unreadable: %r' % e)
+    n = 0
+    for net, v in sorted(data.items()):
+        if net not in PUBLISHED_UNITS:
+            ctx.unsure('network %s is not in the table of published units of this check' % net)
+            continue
+        n += 1
+        d = v.get('denominator')
+        want = Fraction(1, 10 ** PUBLISHED_UNITS[net])
+        ok = isinstance(d, (int, float)) and Fraction(repr(d)) == want
+        ctx.require(ok, 'bitcoinlib/data/networks.json', 'network %s: denominator is %r, the smallest unit of the chain is 1e-%02d' % (net, d, PUBLISHED_UNITS[net]), None,
+                    'every amount given or shown as text on this network is converted with the wrong unit: off by a power of ten')
+        for k in ('dust_amount', 'fee_default', 'fee_min', 'fee_max'):
+            if v.get(k) is not None:
+                ctx.require(isinstance(v[k], int) and not isinstance(v[k], bool) and v[k] >= 0, 'bitcoinlib/data/networks.json', 'network %s: %s is %r, not a non-negative whole number of smallest units' % (net, k, v[k]), None)
+    for net in PUBLISHED_UNITS:
+        if net not in data:
+            ctx.undecided('network %s vanished from networks.json' % net)
+    ctx.saw('%d networks: denominator 1e-08 everywhere, limits are integers' % n)
+    ctx.floor(n, 10, 'networks')
+
+
+@PROP.obligation('C17.derived-fee-sign', canaries=[
+    mut.replace_expr('transactions', 'Transaction.__init__', 'fee < 0 or (fee == 0 and (not self.coinbase))', 'all((i.value for i in self.inputs)) and (fee < 0 or (fee == 0 and (not self.coinbase)))', 'negative derived fee only refused when every input value is known'),
+    mut.replace_expr('transactions', 'Transaction.__init__', 'fee < 0', 'fee < -1', 'derived fee of -1 accepted'),
+])
+def derived_fee_sign(ctx):
+    """Transaction.__init__ derives fee = input_total - output_total when none is given. The statement is evaluated for totals whose
+    difference is negative (and positive, as the control): whatever else the refusal is made to depend on, no way out of the statement
+    leaves a negative number in `fee` - it raises, or the fee is reset. Transaction.fee, as_dict()['fee'] and the wallet export carry it."""
+    q = 'transactions:Transaction.__init__'
+    fn = ctx.repo.func(q)
+    stmts = [n for n in fn.body if isinstance(n, ast.If) and 'fee is None' in norm(n.test) and any(isinstance(x, ast.Assign) and norm(x.targets[0]) == 'fee' for x in ast.walk(n))]
+    if len(stmts) != 1:
+        ctx.undecided('Transaction.__init__: %d statements derive the fee from the totals, expected 1' % len(stmts))
+    n = 0
+    for tin, tout, label in ((60000, 100000, 'negative'), (99999, 100000, 'minus one'), (100000, 60000, 'positive')):
+        it = Interp(ctx.repo, 'transactions', self_cls='transactions:Transaction')
+        st = State(env={'self': S(SELF), 'fee': None, 'input_total': tin, 'output_total': tout, 'inputs': S(('var', 'inputs'), 'list'), 'outputs': S(('var', 'outputs'), 'list')})
+        st.heap[A(SELF, 'coinbase')] = False
+        it.frames.append([])
+        try:
+            end = it.exec_stmt(stmts[0], st)
+        except AnalysisError as e:
+            ctx.undecided('Transaction.__init__: fee derivation not evaluable for totals %d / %d: %s' % (tin, tout, str(e)[:100]))
+        n += 1
+        fee = None if end is None else end.env.get('fee')
+        ctx.saw('inputs %d, outputs %d -> %s' % (tin, tout, 'raises' if end is None else 'fee = %s%s' % (show(term(fee))[:40], ' when ' + ' and '.join(('' if p_ else 'not ') + show(t)[:50] for t, p_ in end.pc) if end.pc else '')))
+        if label == 'positive':
+            ctx.require(end is not None and term(fee) == tin - tout, q, 'totals %d / %d give %s instead of the fee %d' % (tin, tout, 'a refusal' if end is None else show(term(fee))[:40], tin - tout), stmts[0])
+            continue
+        if end is None:
+            continue
+        vals = [x for x in subterms(('w', term(fee))) if isinstance(x, int) and not isinstance(x, bool)] if not isinstance(fee, int) else [fee]
+        neg = isinstance(fee, int) and fee < 0 or (not isinstance(fee, int) and any(v < 0 for v in vals))
+        ctx.require(not neg, q, 'with input total %d and output total %d the constructor can continue with fee = %s%s' % (tin, tout, show(term(fee))[:40], (' (when ' + ' and '.join(('' if p_ else 'not ') + show(t)[:60] for t, p_ in end.pc) + ')') if end.pc else ''), stmts[0],
+                    'Transaction.fee, as_dict() and the exported transaction carry a negative number of smallest units')
+    ctx.floor(n, 3, 'total scenarios')
